@@ -488,6 +488,7 @@ func (m *machine) genPlain(t *rapid.T) hOp {
 	op := hOp{Kind: "create"}
 	op.Sender = pick(t, "sender", []int{0, 0, 1, 1, 2, 2, 3, 3, 3, 4, 5})
 	op.To = m.genRecipient(t, -1)
+	op.UpperTo = chance(t, "upper-to", 12)
 	sender := m.addrOf(op.Sender)
 	cands := append([]string{}, plainDenoms...)
 	for _, d := range htltDenoms {
@@ -679,6 +680,7 @@ func (m *machine) genDup(t *rapid.T) hOp {
 	}
 	o := pool[uni(t, "dup/of", len(pool))]
 	op := hOp{Kind: "create", Sender: o.senderIdx, To: o.toIdx, HashLock: o.hashLock, Timestamp: o.ts, Transfer: o.transfer, Secret: o.secret}
+	op.UpperTo = chance(t, "upper-to", 12)
 	for _, c := range o.coins {
 		op.Coins = append(op.Coins, coinJ{c.denom, c.amt.String()})
 	}
